@@ -26,21 +26,22 @@ Theorem C09_files_decode : forall g ops w, g_fix g = true -> r_all (decodes g) g
 Proof. exact files_decode. Qed.
 Print Assumptions C09_files_decode.
 
-(* "the image object stays usable afterwards".  FULL STATEMENT (after every successful save the
-   image still denotes the value it had) is false of the faithful model: C09_usable_refuted
-   (finding S-C09c).  Proved (do_save is the step of Save / SaveU8): it holds unless the image is a
-   proxy of the target file itself and the dtype written differs from the dtype the proxy copied when
-   it was loaded, or - integer storage - the re-computed scale factors differ from the proxy's.
-   (MGH clipping data of both signs to uint8 is excluded: the file itself does not hold the data.) *)
-Theorem C09_usable_partial : forall g w s t hd v d a k im0,
-  g_fix g = true -> g_reshape_ok g = true ->
-  snd (do_save g w s t hd) = OSaved t v d a k -> img_at w s = Some im0 ->
-  ~ (g_mixed g = true /\ d = U1 /\ pi_fmt (pinfo_of g t) = Mgh) ->
-  (forall c, file_at (fst (do_save g w s t hd)) (fid g t) = Some c -> ~ stale_after g im0 t c) ->
-  img_at (fst (do_save g w s t hd)) s = Some im0
-  /\ denote g (w_fs (fst (do_save g w s t hd))) im0 = RVal v.
-Proof. exact usable_after_save. Qed.
-Print Assumptions C09_usable_partial.
+(* "the image object stays usable afterwards": in every history, after every successful save the saving
+   image is still there and still denotes the data it had at that save (with fix 29b7b6ce: an image whose
+   own proxy reads the target file is re-pointed to the data just written, its caches dropped).
+   Side conditions: names of one file belong to one image class [names_wf]; proxy images are of the class
+   of the name they were loaded from [classes_ok] - true of every initial world and kept by every step;
+   MGH clipping data of both signs to uint8 is excluded (the FILE does not hold the data then). *)
+Theorem C09_usable : forall g ops w,
+  g_fix g = true -> g_reshape_ok g = true -> g_repoint g = true -> names_wf g -> classes_ok g w ->
+  r_all (usable g) g w ops.
+Proof. exact usable_all. Qed.
+Print Assumptions C09_usable.
+
+Theorem C09_initial_worlds_classes_ok : forall g w,
+  (forall s im, img_at w s = Some im -> exists v, i_src im = SArray v) -> classes_ok g w.
+Proof. exact no_proxies_classes_ok. Qed.
+Print Assumptions C09_initial_worlds_classes_ok.
 
 Definition w_one (d : dtype) : world := mkW [Some (mkK (Some 0%nat) d 0%nat 0%nat)] [None; None] false.
 (* an int16 file with preset scale factors (identity 1); the writers compute identity 2 for value 0 *)
@@ -48,25 +49,41 @@ Definition w_scaled : world := mkW [Some (mkK (Some 0%nat) I2 0%nat 1%nat); None
 Definition sc_tab : list (fmt * dtype * nat * nat) := [(Nii, I2, 0%nat, 2%nat); (Nii, U1, 0%nat, 3%nat); (Spm, I2, 0%nat, 4%nat)].
 Definition g_one (n : Z) (fx : bool) : cfg := platform_cfg n [mkP Nii false] [0%nat] fx sc_tab false false.
 
-(* S-C09c: load a.nii, set_data_dtype(other width), save onto a.nii: the file is right, the image
-   is not - narrower: its reads are refused (OSError); wider: they silently return garbage *)
-Theorem C09_usable_refuted :
-  (let w := fst (run (g_one 24 true) (w_one F8) [Load 0 0 true; SetDtype 0; Save 0 0]) in
-   snd (run (g_one 24 true) (w_one F8) [Load 0 0 true; SetDtype 0; Save 0 0]) = [ODone; ODone; OSaved 0 (Some 0%nat) F4 0 0]
+(* the same configuration without the re-pointing of fix 29b7b6ce *)
+Definition g_unrep (n : Z) : cfg :=
+  mkCfg n platform_page [mkP Nii false] [0%nat] platform_off platform_foot platform_conv true sc_tab
+        platform_nointer false false true false.
+
+(* the repair matters (finding S-C09c, fixed by 29b7b6ce).  Without it: load a.nii, set_data_dtype(other
+   width), save onto a.nii: the file is right, the image is not - narrower: its reads are refused (OSError);
+   wider: they silently return garbage.  With it the same histories leave a usable image. *)
+Theorem C09_unrepaired_refuted :
+  (let w := fst (run (g_unrep 24) (w_one F8) [Load 0 0 true; SetDtype 0; Save 0 0]) in
+   snd (run (g_unrep 24) (w_one F8) [Load 0 0 true; SetDtype 0; Save 0 0]) = [ODone; ODone; OSaved 0 (Some 0%nat) F4 0 0]
    /\ file_at w 0 = Some (mkK (Some 0%nat) F4 0%nat 0%nat)
-   /\ exists im, img_at w 0 = Some im /\ denote (g_one 24 true) (w_fs w) im = RRefused)
+   /\ exists im, img_at w 0 = Some im /\ denote (g_unrep 24) (w_fs w) im = RRefused)
   /\
-  (let w := fst (run (g_one 24 true) (w_one F4) [Load 0 0 true; SetDtype 0; Save 0 0]) in
-   snd (run (g_one 24 true) (w_one F4) [Load 0 0 true; SetDtype 0; Save 0 0]) = [ODone; ODone; OSaved 0 (Some 0%nat) F8 0 0]
-   /\ exists im, img_at w 0 = Some im /\ denote (g_one 24 true) (w_fs w) im = RVal None)
+  (let w := fst (run (g_unrep 24) (w_one F4) [Load 0 0 true; SetDtype 0; Save 0 0]) in
+   snd (run (g_unrep 24) (w_one F4) [Load 0 0 true; SetDtype 0; Save 0 0]) = [ODone; ODone; OSaved 0 (Some 0%nat) F8 0 0]
+   /\ exists im, img_at w 0 = Some im /\ denote (g_unrep 24) (w_fs w) im = RVal None)
   /\
   (* no dtype change at all: load a scaled int16 file and save it onto itself - the writer re-scales, the
      image keeps the old factors and silently decodes garbage *)
-  (let w := fst (run (g_one 24 true) w_scaled [Load 0 0 true; Save 0 0]) in
-   snd (run (g_one 24 true) w_scaled [Load 0 0 true; Save 0 0]) = [ODone; OSaved 0 (Some 0%nat) I2 0 2]
-   /\ exists im, img_at w 0 = Some im /\ denote (g_one 24 true) (w_fs w) im = RVal None).
-Proof. split; [|split]; vm_compute; repeat split; eexists; split; reflexivity. Qed.
-Print Assumptions C09_usable_refuted.
+  (let w := fst (run (g_unrep 24) w_scaled [Load 0 0 true; Save 0 0]) in
+   snd (run (g_unrep 24) w_scaled [Load 0 0 true; Save 0 0]) = [ODone; OSaved 0 (Some 0%nat) I2 0 2]
+   /\ exists im, img_at w 0 = Some im /\ denote (g_unrep 24) (w_fs w) im = RVal None)
+  /\
+  (* with the repair: usable in all three, and reads afterwards give the data *)
+  snd (run (g_one 24 true) (w_one F8) [Load 0 0 true; SetDtype 0; Save 0 0; Fdata 0])
+    = [ODone; ODone; OSaved 0 (Some 0%nat) F4 0 0; OVal (Some 0%nat)]
+  /\ snd (run (g_one 24 true) (w_one F4) [Load 0 0 true; SetDtype 0; Save 0 0; Fdata 0])
+    = [ODone; ODone; OSaved 0 (Some 0%nat) F8 0 0; OVal (Some 0%nat)]
+  /\ snd (run (g_one 24 true) w_scaled [Load 0 0 true; Save 0 0; Fdata 0; Save 0 1])
+    = [ODone; OSaved 0 (Some 0%nat) I2 0 2; OVal (Some 0%nat); OSaved 1 (Some 0%nat) I2 0 2].
+Proof.
+  split; [|split; [|split]]; [| | |vm_compute; repeat split]; vm_compute; repeat split; eexists; split; reflexivity.
+Qed.
+Print Assumptions C09_unrepaired_refuted.
 
 (* "no step of the history crashes".  FULL STATEMENT is false of the faithful model:
    C09_no_crash_refuted (finding S-C09b, inherent to mmap).  Proved: from any world whose live maps
@@ -81,17 +98,20 @@ Theorem C09_initial_worlds_backed : forall g w, no_caches w -> backed g w.
 Proof. exact no_caches_backed. Qed.
 Print Assumptions C09_initial_worlds_backed.
 
-(* S-C09b on the platform's tables, 2048 voxels (16 KiB as float64): a DIFFERENT image saves a
-   shorter file over a.nii while the first image's cache is a map of it; and the SAME image does *)
+(* S-C09b on the platform's tables, 2048 voxels (16 KiB as float64): a DIFFERENT image object saves a
+   shorter file over a.nii while the first image's cache is a map of it.  The SAME image doing so is safe
+   since 29b7b6ce (its caches are dropped when it is re-pointed); it crashed before (g_unrep) *)
 Theorem C09_no_crash_refuted :
   cfg_wf (g_one 2048 true) /\ no_caches (w_one F8)
   /\ snd (run (g_one 2048 true) (w_one F8) [Load 0 0 true; Fdata 0; Load 1 0 true; SetDtype 1; Save 1 0; Fdata 0])
      = [ODone; OVal (Some 0%nat); ODone; ODone; OSaved 0 (Some 0%nat) F4 0 0; OCrash]
   /\ snd (run (g_one 2048 true) (w_one F8) [Load 0 0 true; Fdata 0; SetDtype 0; Save 0 0; Fdata 0])
+     = [ODone; OVal (Some 0%nat); ODone; OSaved 0 (Some 0%nat) F4 0 0; OVal (Some 0%nat)]
+  /\ snd (run (g_unrep 2048) (w_one F8) [Load 0 0 true; Fdata 0; SetDtype 0; Save 0 0; Fdata 0])
      = [ODone; OVal (Some 0%nat); ODone; OSaved 0 (Some 0%nat) F4 0 0; OCrash]
-  /\ (* inside one page the same histories end in silently different values instead *)
-     snd (run (g_one 24 true) (w_one F8) [Load 0 0 true; Fdata 0; SetDtype 0; Save 0 0; Fdata 0])
-     = [ODone; OVal (Some 0%nat); ODone; OSaved 0 (Some 0%nat) F4 0 0; OVal None].
+  /\ (* inside one page the other-image history ends in silently different values instead *)
+     snd (run (g_one 24 true) (w_one F8) [Load 0 0 true; Fdata 0; Load 1 0 true; SetDtype 1; Save 1 0; Fdata 0])
+     = [ODone; OVal (Some 0%nat); ODone; ODone; OSaved 0 (Some 0%nat) F4 0 0; OVal None].
 Proof.
   split; [apply platform_wf|]. split; [|vm_compute; repeat split].
   intros s im H. destruct s as [|[|s]]; vm_compute in H; try discriminate; destruct s; discriminate.
@@ -128,7 +148,7 @@ Theorem C09_refusals_and_reshape :
    = (fst (run g w [Load 0 0 true]), [ODone; ORefused EWriter; ORefused EWriter; ORefused ENoSpace]))
   /\
   (let g ok := mkCfg 24 platform_page [mkP Nii false; mkP Mgh false] [0%nat; 1%nat] platform_off platform_foot
-                     platform_conv true sc_tab platform_nointer false true ok in
+                     platform_conv true sc_tab platform_nointer false true ok true in
    snd (run (g true) w_scaled [Load 0 0 true; Save 0 1]) = [ODone; OSaved 1 (Some 0%nat) F4 0 0]
    /\ snd (run (g false) w_scaled [Load 0 0 true; Save 0 1]) = [ODone; OSaved 1 None F4 0 0]).
 Proof. vm_compute. repeat split. Qed.
